@@ -6,3 +6,4 @@ open O2P.Gate
 #print axioms soundB_iff
 #print axioms exactB_iff
 #print axioms family_plain
+#print axioms cover_spec
